@@ -57,12 +57,17 @@ type evCase struct {
 	Read   *evRead   `json:"read,omitempty"`
 	Stores []evStore `json:"stores_of_key,omitempty"`
 	Detail string    `json:"detail,omitempty"`
+	// deadlock/over-capacity-run: operations completed per goroutine and the
+	// stacks of the blocked ones
+	Completed []int64  `json:"completed_per_goroutine,omitempty"`
+	Dump      []string `json:"blocked_goroutines,omitempty"`
 }
 
 type evResult struct {
 	params     evParams
 	fail       *seqFail
 	failCase   *evCase
+	inconc     string
 	reads      int
 	readHits   int
 	stores     int
@@ -187,6 +192,7 @@ func runEvict(c *ctx, idx int) *evResult {
 		}
 		return keys[w.rng.IntN(len(keys))]
 	}
+	live := newLiveness(p.Writers + p.Readers) // frozen-progress guard (nest.go)
 	writer := func(w *worker) {
 		for i := 0; i < p.OpsPer; i++ {
 			k := pick(w)
@@ -258,6 +264,7 @@ func runEvict(c *ctx, idx int) *evResult {
 			if w.fail != nil {
 				return
 			}
+			live.tick(w.id)
 		}
 	}
 	reader := func(w *worker) {
@@ -294,6 +301,7 @@ func runEvict(c *ctx, idx int) *evResult {
 			if w.fail != nil {
 				return
 			}
+			live.tick(w.id)
 		}
 	}
 
@@ -327,12 +335,14 @@ func runEvict(c *ctx, idx int) *evResult {
 		wg.Add(1)
 		go func(g int, w *worker) {
 			defer wg.Done()
+			defer live.finish(g)
 			defer func() {
 				if pn := recover(); pn != nil {
 					setFail(w, "panic", fmt.Sprintf("panic in a table operation: %v", pn))
 				}
 			}()
 			<-start
+			live.enter(g)
 			if g < p.Writers {
 				writer(w)
 			} else {
@@ -341,7 +351,21 @@ func runEvict(c *ctx, idx int) *evResult {
 		}(g, w)
 	}
 	close(start)
-	wg.Wait()
+	allDone := make(chan struct{})
+	go func() { wg.Wait(); close(allDone) }()
+	if v := live.wait(allDone); v.dead || v.starved {
+		stop.Store(true)
+		<-monDone
+		if v.starved {
+			res.inconc = fmt.Sprintf("over-capacity run %d made no progress for %s but its goroutines are not all blocked on mutexes (starved machine?): not judged", idx, v.frozen)
+			return res
+		}
+		// the table must not be touched any more: its locks are held for good
+		what := fmt.Sprintf("%d writers and %d readers on a cache of capacity %d: after %d operations not one more completed for %s, and every unfinished goroutine is blocked in a mutex of the table (only these goroutines ever lock it, and none of them is running)", p.Writers, p.Readers, p.Capacity, live.total(), v.frozen)
+		res.fail = &seqFail{sig: "deadlock/over-capacity-run", what: what}
+		res.failCase = &evCase{evParams: p, Detail: what, Completed: live.completed(), Dump: v.dump}
+		return res
+	}
 	stop.Store(true)
 	<-monDone
 	res.lenSamples, res.lenMax, res.lenOverCap = int(monN), monMax, int(monOver)
